@@ -28,7 +28,7 @@ RULE = ('(a) EVERY byte string of length <= L (L=3 quick, 4 thorough) over the 2
         '(a3) boundary magnitudes: declared lengths within -13..+2 (thorough -20..+5) of 2**31, 2**32, 2**63, 2**64 under 12 tag kinds, minimal and padded length form, bare and inside an indefinite SEQUENCE; decimal REALs (NR1/NR2/NR3) with 1..4400 digits and exponents up to 4400 digits; binary REALs with 2..21-octet exponents in every base/scale; 127..5000-octet INTEGER/OID/ENUMERATED/BIT STRING/BOOLEAN/NULL contents; '
         'Sigma = %s; (b) the complete single-mutation neighbourhood (replace each octet by each sigma, delete, '
         'insert sigma, truncate, rewrite first length octet to {00,7F,80,81,84FFFFFFFF,87FF..,88FF..,8901 00..,FE 01..}, empty the content of each constructed element) of every seed encoding '
-        '(cover set, all forms, |e| <= 24 quick / 40 thorough); x decoders {BER,CER,DER} x {one-shot on bytes, '
+        '(cover set, all forms, |e| <= 24 quick / 40 thorough); (a3 also as a real file on disk, buffered and unbuffered;) x decoders {BER,CER,DER} x {one-shot on bytes, '
         'streaming on an instrumented seekable stream} x guiding type in {none} + 8 specs (quick: none + the 4 '
         'most permissive for (a)). Non-trivial = input is not itself a valid complete encoding for the spec; '
         'distinct = digest of (bytes, decoder, mode, spec).' % SIGMA.hex())
@@ -53,6 +53,17 @@ SPECS = [
     ('seqof-real', ('SEQOF', U.REAL)),
     ('utf8', U.UTF8),
     ('oid', U.OID),
+]
+
+
+MAGNITUDE_SPECS = [
+    ('int-range', ('CON', ('VR', 0, 10), INT)),
+    ('seq-real', ('SEQ', (('r', U.REAL, 'R', None),))),
+    ('seq-int-opt', ('SEQ', (('i', ('CON', ('VR', -5, 5), INT), 'R', None), ('j', INT, 'O', None)))),
+    ('seqof-real-size', ('CON', ('SZ', 2, 2), ('SEQOF', U.REAL))),
+    ('setof-int-size', ('CON', ('SZ', 1, 1), ('SETOF', INT))),
+    ('bits-size', ('CON', ('SZ', 1, 2), BITS)),
+    ('enum', ('ENUM', (('a', 0), ('b', 1)))),
 ]
 
 
@@ -122,6 +133,8 @@ def run_case(data, decname, spec, streaming):
         return None
     except Timeout:
         return ('hang', 'no termination within 5 s of CPU time', 'decoder')
+    except MemoryError as e:
+        return ('leak:MemoryError', exc_text(e), pyasn1_site(e))
     except RecursionError as e:
         return ('leak:RecursionError', exc_text(e), pyasn1_site(e))
     except Exception as e:
@@ -290,6 +303,19 @@ def magnitudes(tier):
                 body = bytes([first]) + (bytes([len(eb)]) if first & 3 == 3 else b'') + eb + mant
                 yield tlv(9, body)
                 yield tlv(0x30, tlv(9, body))
+    # huge scalars inside containers that are then found wrong (excess member, size bound, range): the error
+    # message must not try to print them
+    huge = [tlv(9, b'\x83\x04\x3b\x9a\xca\x00\x01'), tlv(9, b'\x83\x08\x3f' + b'\xff' * 7 + b'\x01'),
+            tlv(9, b'\x03' + b'1E' + b'9' * 12), tlv(2, b'\x7f' * 2048), tlv(2, b'\x80' + b'\x00' * 3000),
+            tlv(3, b'\x00' + b'\xff' * 3000), tlv(10, b'\x7f' * 2048), tlv(6, b'\x2b' + b'\xff' * 3000 + b'\x01')]
+    for h in huge:
+        yield h
+        yield b'\x30\x80' + h + b'\x02\x01\x01\x00\x00'
+        yield tlv(0x30, h + b'\x02\x01\x01')
+        yield tlv(0x30, h)
+        yield tlv(0x30, h + h + h)
+        yield tlv(0x31, h + h)
+        yield tlv(0xa0, h)
     for n in (127, 128, 255, 256, 5000):
         yield tlv(2, b'\x7f' * n)
         yield tlv(2, b'\x80' + b'\x00' * n)
@@ -310,6 +336,10 @@ def spec_list(tier, part):
 def shard(tier, i, n, seed):
     R = Result()
     signal.signal(signal.SIGVTALRM, _alarm)
+    # a decoder that starts computing with a declared magnitude (2 ** huge) cannot be interrupted from Python and
+    # would take the machine down with it: cap the worker's address space so that it fails with MemoryError instead
+    import resource
+    resource.setrlimit(resource.RLIMIT_AS, (6 << 30, 6 << 30))
     L = 3 if tier == 'quick' else 4
     specs_a = [(nm, (B.to_spec(T) if T else None), T) for nm, T in spec_list(tier, 'a')]
     specs_b = [(nm, (B.to_spec(T) if T else None), T) for nm, T in spec_list(tier, 'b')]
@@ -329,11 +359,13 @@ def shard(tier, i, n, seed):
             continue
         guarded(R, lambda: run_all(data, 'primitive', None, specs_p, R, idx), {'data': data, 'origin': 'primitive'}, {'primitive'}, idx)
     # (a3) boundary magnitudes
+    specs_m = [(nm, B.to_spec(T), T) for nm, T in MAGNITUDE_SPECS]
     for data in magnitudes(tier):
         idx += 1
         if (idx + seed) % n != i:
             continue
-        guarded(R, lambda: run_all(data, 'magnitude', None, specs_b, R, idx), {'data': data, 'origin': 'magnitude'}, {'magnitude'}, idx)
+        guarded(R, lambda: run_all(data, 'magnitude', None, specs_b + specs_m, R, idx), {'data': data, 'origin': 'magnitude'}, {'magnitude'}, idx)
+        guarded(R, lambda: run_files(data, specs_b[:3], R, idx), {'data': data, 'origin': 'magnitude', 'as': 'file'}, {'magnitude', 'file'}, idx)
     # (b) mutation neighbourhoods
     for name, form, T, e in seeds(tier):
         own = ('own:' + name, B.to_spec(T), T)
@@ -343,6 +375,40 @@ def shard(tier, i, n, seed):
                 continue
             guarded(R, lambda: run_all(m, 'mut:' + kind, (name, form), specs_b + [own], R, idx), {'data': m, 'origin': 'mut:' + kind}, {'mut'}, idx)
     return R
+
+
+_TMP = [None]
+
+
+def run_files(data, specs, R, idx):
+    """the same input in a real file on disk, opened buffered and unbuffered: file objects set up a buffer of the
+    requested size before reading, so declared lengths meet the allocator"""
+    import os
+    import tempfile
+    if _TMP[0] is None or _TMP[0][0] != os.getpid():
+        fd, name = tempfile.mkstemp(prefix='c08-')
+        os.close(fd)
+        _TMP[0] = (os.getpid(), name)
+        import atexit
+        atexit.register(lambda n=name: os.path.exists(n) and os.unlink(n))
+    name = _TMP[0][1]
+    with open(name, 'wb') as f:
+        f.write(data)
+    for specname, spec, T in specs:
+        for decname in ('ber', 'der'):
+            for buffering in (-1, 0):
+                R.evaluations += 1
+                R.nontrivial((data, decname, 'file', buffering, specname))
+                with open(name, 'rb', buffering=buffering) as f:
+                    bad = run_case(f, decname, spec, False)
+                if bad:
+                    clause, text, site = bad
+                    R.violation(clause, {'data': data, 'dec': decname, 'streaming': False, 'spec': specname, 'T': T,
+                                         'origin': 'magnitude', 'as': 'file', 'buffering': buffering},
+                                text + ' on file holding ' + data[:40].hex(), 'value object + remainder, or PyAsn1Error', site,
+                                {'dec:' + decname, 'file', 'buffered' if buffering else 'unbuffered', 'spec:' + specname, 'magnitude'}, idx)
+                else:
+                    R.features['file'] += 1
 
 
 def run_all(data, origin, seed_id, specs, R, idx):
